@@ -4,6 +4,8 @@ import (
 	"flag"
 	"fmt"
 	"os"
+	"runtime"
+	"strings"
 )
 
 func main() {
@@ -23,47 +25,7 @@ func main() {
 		childC18Bytes(*out, *tier, *seed)
 		return
 	}
-	switch *prop {
-	case "C15":
-		genC15(*out, *tier, *seed)
-	case "C01":
-		genC01(*out, *tier, *seed)
-	case "C02":
-		genC02(*out, *tier, *seed)
-	case "C03":
-		genC03(*out, *tier, *seed)
-	case "C04":
-		genC04(*out, *tier, *seed)
-	case "C05":
-		genC05(*out, *tier, *seed)
-	case "C06":
-		genC06(*out, *tier, *seed)
-	case "C07":
-		genC07(*out, *tier, *seed)
-	case "C08":
-		genC08(*out, *tier, *seed)
-	case "C09":
-		genC09(*out, *tier, *seed)
-	case "C10":
-		genC10(*out, *tier, *seed)
-	case "C11":
-		genC11(*out, *tier, *seed)
-	case "C12":
-		genC12(*out, *tier, *seed)
-	case "C13":
-		genC13(*out, *tier, *seed)
-	case "C14":
-		genC14(*out, *tier, *seed)
-	case "C16":
-		genC16(*out, *tier, *seed)
-	case "C17":
-		genC17(*out, *tier, *seed)
-	case "C18":
-		genC18(*out, *tier, *seed)
-	default:
-		fmt.Fprintln(os.Stderr, "unknown property", *prop)
-		os.Exit(2)
-	}
+	runGenerator(*prop, *out, *tier, *seed)
 	if reuseAll.N > 0 {
 		meta.GoOnly = append(meta.GoOnly, reuseAll)
 	}
@@ -94,4 +56,72 @@ func main() {
 		total += s.N
 	}
 	fmt.Println("generated", total, "cases in", len(meta.Streams), "streams")
+}
+
+func dispatch(prop, out, tier string, seed int64) {
+	switch prop {
+	case "C15":
+		genC15(out, tier, seed)
+	case "C01":
+		genC01(out, tier, seed)
+	case "C02":
+		genC02(out, tier, seed)
+	case "C03":
+		genC03(out, tier, seed)
+	case "C04":
+		genC04(out, tier, seed)
+	case "C05":
+		genC05(out, tier, seed)
+	case "C06":
+		genC06(out, tier, seed)
+	case "C07":
+		genC07(out, tier, seed)
+	case "C08":
+		genC08(out, tier, seed)
+	case "C09":
+		genC09(out, tier, seed)
+	case "C10":
+		genC10(out, tier, seed)
+	case "C11":
+		genC11(out, tier, seed)
+	case "C12":
+		genC12(out, tier, seed)
+	case "C13":
+		genC13(out, tier, seed)
+	case "C14":
+		genC14(out, tier, seed)
+	case "C16":
+		genC16(out, tier, seed)
+	case "C17":
+		genC17(out, tier, seed)
+	case "C18":
+		genC18(out, tier, seed)
+	default:
+		fmt.Fprintln(os.Stderr, "unknown property", prop)
+		os.Exit(2)
+	}
+}
+
+// runGenerator runs one property's generator. A Go panic that escapes the generator itself --
+// every call into the code under test is made under recover(), so this is the harness's OWN code
+// dying, e.g. the tensor library refusing to build a perfectly ordinary input because an earlier
+// call of the code under test left the library's process-wide state (its tensor pool) corrupted --
+// is not a broken check: it is reported as a violation with the last operator case handed to the
+// code under test, and the cases written up to that point are still judged.
+var generatorDied = goOnlyResult{Stream: "generator_integrity", Rule: "the harness's own code (building ordinary input tensors with the tensor library, printing them) runs to completion: every call into the code under test is made under recover(), so a panic outside those calls means an earlier call left process-wide state of the tensor library corrupted", Violations: []string{}}
+
+func runGenerator(prop, out, tier string, seed int64) {
+	defer func() {
+		generatorDied.N = 1
+		if r := recover(); r != nil {
+			buf := make([]byte, 6000)
+			buf = buf[:runtime.Stack(buf, false)]
+			generatorDied.Violations = append(generatorDied.Violations, fmt.Sprintf("the generator of %s (seed %d, tier %s) panicked outside any call into the code under test: %v | the last operator case before it: %s | stack: %s", prop, seed, tier, r, lastCaseDesc, strings.ReplaceAll(string(buf), "\n", " / ")))
+			for _, cw := range allWriters {
+				cw.close()
+			}
+		}
+		meta.GoOnly = append(meta.GoOnly, generatorDied)
+	}()
+	dispatch(prop, out, tier, seed)
 }
